@@ -5,7 +5,7 @@ import Sif.Driver.Perm
 -/
 open Sif.Drv.Perm
 
-partial def loop (h : IO.FS.Stream) (out : IO.FS.Stream) (reg : Sif.Registry.Registry) : IO Unit := do
+partial def loop (h : IO.FS.Stream) (out : IO.FS.Stream) (reg : DS) : IO Unit := do
   let line ← h.getLine
   if line.isEmpty then return ()
   let toks := (line.trimAscii.toString.splitOn " ").filter (· ≠ "")
@@ -15,4 +15,4 @@ partial def loop (h : IO.FS.Stream) (out : IO.FS.Stream) (reg : Sif.Registry.Reg
 
 def main : IO Unit := do
   let out ← IO.getStdout
-  loop (← IO.getStdin) out []
+  loop (← IO.getStdin) out DS.init
